@@ -19,7 +19,7 @@ RULE = ('one evaluation = one path = one template x one request history x one cl
 BOUNDS = {
     'quick': '7 templates of the documented grammar (static list, wildcard with 1-3 alternatives, $num with/without width, $title(n), no wildcard) x histories of 3 requests '
              '(4 for the two most common templates) x id of 1-2 and title of 1-3 symbolic characters over {a, b, blank, /} x each binding present or absent x reserved name on/off',
-    'thorough': 'histories of 4 requests for all templates and 5-6 for the two most common; id and title of up to 2 and 4 characters; exhaustion histories (more requests than names)',
+    'thorough': 'histories of 3-4 requests for all templates (5 for the most common one); id and title of up to 2 and 4 characters; exhaustion histories (more requests than names)',
 }
 ASSUMPTIONS = ['string.Template.substitute is modelled by its documented rule on the concrete template (validated against the real class at start-up)',
                'os.path.splitext modelled by its documented rule (validated at start-up)', 'binding values are strings over {a, b, blank, /} of bounded length']
@@ -255,7 +255,7 @@ def jobs(tier, seed):
                 if tid in ('T1', 'T3', 'T6') and not reserved:
                     cfgs.append((2, 3, 2))
             else:
-                cfgs = [(1, 1, 5 if common_t else 4), (2, 3, 2), (2, 4, 2 if tid in ('T1', 'T6') else 1)]
+                cfgs = [(1, 1, 4 if common_t else 3), (2, 3, 2), (2, 4, 1)] + ([(1, 1, 5)] if tid == 'T2' else [])
             for idlen, titlelen, n in cfgs:
                 J.append(dict(harness='h_files', params=dict(tid=tid, nreq=n, idlen=idlen, titlelen=titlelen, reserved=reserved),
                               label='%s n=%d id%d title%d%s' % (tid, n, idlen, titlelen, ' reserved' if reserved else ''), split=6))
